@@ -1211,7 +1211,7 @@ func (tc *typechecker) checkBuiltinCall(expr *ast.Call) []*typeInfo {
 			} else {
 				elemType := slice.Type.Elem()
 				if t.Type.Kind() != reflect.Slice ||
-					tc.isAssignableTo(&typeInfo{Type: t.Type.Elem()}, arg1, elemType) != nil {
+					tc.isAssignableTo(t, arg1, tc.types.SliceOf(elemType)) != nil {
 					panic(tc.errorf(expr, "cannot use %s (type %s) as type []%s in append", arg1, t, elemType))
 				}
 			}
